@@ -145,7 +145,15 @@ def subject(case):
         X = panelpool.to_nested(X3, cells="array" if cont == "nested_array" and spec["kind"] not in ("pad", "trunc", "interp", "paa", "dslope", "slope", "dwt", "hog") else "series") if cont != "numpy3d" else X3
         data = {"X": X, "y": panelpool.labels_for(6, "int"), "Xa": panelpool.to_nested(Xa3) if cont != "numpy3d" else Xa3}
         s2 = dict(spec, random_state=rs)
+        # panels of another shape than the fitted one (longer / shorter series, one instance):
+        # whatever a call on them does - answer or refuse - it leaves the fitted object as it was
+        def _other(t_len, n_inst):
+            A = panelpool.panel_values(case["seed"] + 29, n_inst, c, t_len)
+            return panelpool.to_nested(A) if cont != "numpy3d" else A
+
+        others = [_other(26, 3), _other(9, 3), _other(20, 1)]
         return {"make": lambda: panelpool.build_panel_transformer(s2), "fit": lambda e: e.fit(data["X"], data["y"]),
+                "awkward": [(lambda e, O=O: e.transform(O)) for O in others],
                 "calls": {"transform": lambda e: e.transform(data["X"]), "transform_new": lambda e: e.transform(data["Xa"])},
                 "data": data, "desc": spec["kind"],
                 "randomised": spec["kind"] in ("riseg", "rife", "rocket")}
@@ -210,6 +218,16 @@ def oracle_purity(case, ctx):
                 return discs
         else:
             first[name] = out
+    if S.get("awkward") and not discs:
+        for aw in S["awkward"]:
+            sut(aw, est)
+        for name in sorted(first):
+            out = sut(S["calls"][name], est)
+            if not res_eq(first[name], out):
+                discs.append(D("apply_changes_fitted_state:%s.%s" % (type(est).__name__, name),
+                               "%s: after calls on panels of other shapes %s() returned %s, before them %s" % (desc, name, _short(out), _short(first[name]))))
+                return discs
+        ctx.label("calls_on_other_shapes_interleaved")
     if case["family"] == "forecaster" and not pools.needs_fh_in_fit(case["spec"]) and not discs:
         # a horizon passed to predict is remembered; repeating the call without it must give the
         # same answer (predict does not change the estimator, whatever steps were asked for)
